@@ -647,6 +647,9 @@ def check_C07(ctx, tier, seed):
     vd = Verdict(ctx, "C07", tier, seed, "exploration")
     quick = tier == "quick"
     matrix_keys = MATRIX_QUICK if quick else list(MATRIX.keys())
+    # the hooked build takes part in the matrix, too: with the seam in place (simulated CPU = everything the host has)
+    # results must equal those of the unhooked builds -- the instrumentation itself changes nothing
+    matrix_keys = matrix_keys + ["hooked"]
     bins = build_many(ctx, ["hooked", "shuttle"] + matrix_keys)
     # (a) simulated-CPU sweep
     sim_batch_procs(ctx, vd, "hooked", bins["hooked"], "c07cpu", 60_000 if quick else 6_000_000)
